@@ -70,6 +70,11 @@ CHECKS = {
         text="TLC enumerates every digraph (self-loops included) on <=3 classes (quick) / <=4 classes (thorough) x root sequences (1-3 roots, duplicates) x placement variants (12 keyword positions + allOf, direct class keywords and Array/AnyOf/OneOf/AllOf/Not/Element wrappers up to two deep, same-position variants giving classes of identical shape); invariants: sound prefix, clean refusal, unreachable assertion, shrinking worklist; Terminates under WF without state constraint. Each exported heap is realised as real classes (assigned after creation; acyclic ones also declared with Object.inline) and list(orderer(*roots)) must equal the prediction or be accepted by R_C11 (any valid topological order; SchemaParseError iff the reachable class graph is cyclic; no hang/other exception). Seeded random heaps with 4-8 classes, shared wrappers, non-object roots and wrapper cycles are observed and all adjudicated by Trace_Orderer. Exhaustive over graph shapes within the bound; positions by rotation (every edge meets every position in thorough, n<=3), not every combination.",
         note="Class names unique (orderer's stated assumption). A hang is observed as a 10 s + 20 s wall-clock timeout per call (normal call 3-10 ms). For 4 classes one graph-dependent rotation per labelled graph. Subclass/base-class ordering is outside C11.",
         ref="5/C11"),
+    "C12": dict(
+        technique="TLA+ two-layer spec (NameClasses implementation model over 15 interpreter-validated character classes + PropsNames reference), TLC BFS over property names, all pairs of a pair universe, titles x library names in use, documents of titled objects; every state replayed on _parse_attribute_name, parse_element/parse and serialize_python+exec under 3 concretisation maps; drift and code-side names (random long names; thorough: every code point in 5 contexts) adjudicated by TLC trace validation",
+        text="TLC decides R_C12 for every class sequence up to length 3 (thorough 4), for all pairs of names up to 3 atoms over 18-21 atoms (injectivity, with root-cause derivations), for titles up to 2-3 tokens next to each of 12 library element kinds, and for documents with up to 2-3 titled objects at 11 positions; exhaustive within these bounds, sampled beyond.",
+        note="Trusted: the class table (validated per code point against str.isalnum, string.whitespace, unicodedata.name, str.isidentifier of the running interpreter, Unicode 15.0); reserved = dir(object) + keyword.kwlist + _dict; class-name clash judged against the names the generated module actually imports.",
+        ref="5/C12"),
     "C14": dict(
         technique="TLA+ interleaving semantics of access programs (Threads.tla): programs generated from the bind protocol (BindProtocol.tla) and programs recorded from the real code by an access monitor; TLC exhaustive over all interleavings of 2-3 calls, candidates exported with their path (TLCExt!Trace) and replayed on real threads through a gate; sampled TLC schedules, pre-emption sweeps at every monitored access / library function entry, free-running threads; every differing observation adjudicated by TLC trace validation against R_C14",
         text="12 element trees (shared sub-elements and properties, model classes with renamed/required/pattern properties, arrays of objects, compositions over classes, container defaults, undeclared keys, formats) x 2-3 threads x accepted/rejected payloads incl. payloads sharing sub-objects, cold and warm trees: TLC explores every interleaving of the recorded access programs (projected on written locations) and of the abstract bind protocol; exhaustive within these bounds, real-thread replays sampled beyond (quick ~6 000, thorough ~90 000 runs). Each run includes a positive control that must be rejected.",
